@@ -93,6 +93,7 @@ static void build_corpus (void) {
     { "anonymous-function", "int f() { return evaluate(function(int a) { return f() + a; }, 1); }", "  f();" },
     { "efun-funptr", "int f() { return evaluate((: call_other, this_object(), \"f\" :)) + 1; }", "  f();" },
     { "bound-funptr", "int f(mixed a) { return evaluate((: f, ({ a }) :)) + 1; }", "  f(1);" },
+    { "bound-funptr-12-args", "int f(mixed a, mixed b, mixed c, mixed d, mixed e, mixed g, mixed h, mixed i, mixed j, mixed k, mixed l, mixed m) { return evaluate((: f, a, b, c, d, e, g, h, i, j, k, l, m :)) + 1; }", "  f(1,2,3,4,5,6,7,8,9,10,11,12);" },
     { "call_other", "int f() { return this_object()->f() + 1; }", "  f();" },
     { "simul_efun", "int f() { return vm_relay(this_object(), \"f\") + 1; }", "  f();" },
     { "filter", "int f(mixed x) { filter(one, (: f :)); return 1; }", "  f(1);" },
@@ -269,6 +270,8 @@ static void check_value (svalue_t *v, const char *where, int depth) {
   switch (v->type) {
   case T_STRING: {
     size_t l = strlen (v->u.string);
+    /* the text of an error the driver has just raised (what catch yields) is not built by an operator or efun: not judged */
+    if (vw_nerrors && vw_last_error_text[0] && !strncmp (v->u.string, vw_last_error_text, 28)) break;
     if ((long) l > S) { char key[120]; snprintf (key, sizeof key, "C04:string-longer-than-MaxStringLength"); note (key, "a string of %zu bytes exists (MaxStringLength %ld) %s", l, S, where); }
     break; }
   case T_ARRAY: case T_CLASS:
